@@ -688,6 +688,246 @@ fn fmt_deps(d: &IndexMap<String, ExpDep>) -> String {
   format!("{{{}}}", parts.join("; "))
 }
 
+// ---------------------------------------------------------------------------
+// template-literal dynamic imports against a directory tree
+
+/// files of the tree (path under file:///w/)
+const T_FILES: &[&str] = &[
+  "main.ts", "a.ts", "b.js", "c.mjs", "d.mts", "e.tsx", "f.jsx", "g.json", "h.d.ts", "i.txt",
+  "sub/main2.ts", "sub/a.ts", "sub/k.json", "sub/deep/x.ts", "sub/deep/y.js",
+  "node_modules/n.ts", ".hidden/h.ts", "vendor/v.ts", "sub/vendor/w.ts",
+];
+
+/// (template text between the backticks with `${x}` holes, import attribute)
+const TEMPLATES: &[(&str, Option<&str>)] = &[
+  ("./${x}", None),
+  ("./sub/${x}", None),
+  ("./${x}.ts", None),
+  ("./sub/${x}.ts", None),
+  ("./${x}/x.ts", None),
+  ("./${x}/${y}.js", None),
+  ("./sub/${x}/x.ts", None),
+  ("./s${x}", None),
+  ("./a${x}.ts", None),
+  ("${x}", None),
+  ("${x}/a.ts", None),
+  ("../${x}", None),
+  ("./sub/../${x}", None),
+  ("file:///w/sub/${x}", None),
+  ("./${x}", Some("json")),
+  ("./${x}.json", Some("json")),
+  ("./sub/${x}/${y}", None),
+  ("./${x}a.ts", None),
+];
+
+/// The reference: which relative specifiers a template import stands for.
+/// Rules (documented by the repository's own test of this feature): the first
+/// text part names the directory to search and must end in a slash; text parts
+/// between holes must be whole path segments' boundaries ("/…/"); a trailing
+/// text part is a suffix; hidden directories, node_modules and vendor are not
+/// searched; only JavaScript / TypeScript modules count (JSON with a json
+/// attribute); the importing file itself is skipped; a file matches when the
+/// text parts occur in it in order (glob `s0*s1*…*sn`).
+fn template_reference(template: &str, attr: Option<&str>, referrer_path: &str) -> BTreeSet<String> {
+  let mut out = BTreeSet::new();
+  // split into text parts and holes
+  let mut parts: Vec<Option<String>> = vec![]; // Some(text) | None (hole)
+  let mut rest = template;
+  while let Some(i) = rest.find("${") {
+    if i > 0 {
+      parts.push(Some(rest[..i].to_string()));
+    }
+    parts.push(None);
+    let j = rest[i..].find('}').unwrap();
+    rest = &rest[i + j + 1..];
+  }
+  if !rest.is_empty() {
+    parts.push(Some(rest.to_string()));
+  }
+  let Some(Some(first)) = parts.first().cloned() else {
+    return out; // starts with a hole: could be anything, not searched
+  };
+  let referrer_dir = match referrer_path.rfind('/') {
+    Some(i) => &referrer_path[..i + 1],
+    None => "",
+  };
+  // directory to search (path under /w/, with trailing slash or empty)
+  let absolute = first.starts_with("file:///w/");
+  let dir: String = if absolute {
+    first["file:///w/".len()..].to_string()
+  } else if let Some(r) = first.strip_prefix("./") {
+    format!("{referrer_dir}{r}")
+  } else {
+    return out;
+  };
+  let texts: Vec<&String> = parts.iter().enumerate().filter_map(|(i, p)| if i == 0 && absolute { None } else { p.as_ref() }).collect();
+  let last_is_text = matches!(parts.last(), Some(Some(_)));
+  for (i, t) in texts.iter().enumerate() {
+    let ok = !t.contains("/../")
+      && if i == 0 {
+        (t.starts_with("./") || t.starts_with('/')) && t.ends_with('/')
+      } else if last_is_text && i == texts.len() - 1 {
+        t.starts_with('/') || !t.contains('/')
+      } else {
+        t.starts_with('/') && t.ends_with('/')
+      };
+    if !ok {
+      return out;
+    }
+  }
+  // the directory part must be a directory prefix
+  let dir_prefix = if dir.is_empty() || dir.ends_with('/') { dir.clone() } else { return out };
+  for f in T_FILES {
+    if !f.starts_with(&dir_prefix) || *f == referrer_path {
+      continue;
+    }
+    // not below a hidden / node_modules / vendor directory (relative to the searched directory)
+    let below = &f[dir_prefix.len()..];
+    let segs: Vec<&str> = below.split('/').collect();
+    if segs[..segs.len() - 1].iter().any(|d| d.starts_with('.') || *d == "node_modules" || *d == "vendor") {
+      continue;
+    }
+    let ext_ok = if attr == Some("json") {
+      f.ends_with(".json")
+    } else {
+      [".ts", ".js", ".mjs", ".mts", ".tsx", ".jsx"].iter().any(|e| f.ends_with(e)) && !f.ends_with(".d.ts")
+    };
+    if !ext_ok {
+      continue;
+    }
+    // relative specifier as seen from the referrer
+    let rel = if let Some(r) = f.strip_prefix(referrer_dir) {
+      format!("./{r}")
+    } else {
+      // referrer in sub/: ../x
+      let ups = referrer_dir.matches('/').count();
+      format!("{}{}", "../".repeat(ups), f)
+    };
+    // glob s0*s1*...*sn
+    let mut pos = 0usize;
+    let mut ok = true;
+    for t in &texts {
+      match rel[pos..].find(t.as_str()) {
+        Some(i) => pos += i + t.len(),
+        None => {
+          ok = false;
+          break;
+        }
+      }
+    }
+    if ok && last_is_text && !rel.ends_with(texts.last().unwrap().as_str()) {
+      ok = false;
+    }
+    if ok {
+      out.insert(rel);
+    }
+  }
+  out
+}
+
+fn body_templates(ch: &Ch) -> Run {
+  use sys_traits::FsCreateDirAll;
+  use sys_traits::FsWrite;
+  let mut run = Run::default();
+  let (template, attr) = TEMPLATES[ch.shape("template", TEMPLATES.len())];
+  let referrer = *ch.pick("importing_module", &["main.ts", "sub/main2.ts"]);
+  let kind = *ch.pick("graph_kind", &[GraphKind::All, GraphKind::CodeOnly, GraphKind::TypesOnly]);
+  let skip_dynamic = ch.flag("skip_dynamic_deps");
+  let second_import = ch.flag("also_a_plain_static_import_of_a_file_the_template_matches");
+  let sys = sys_traits::impls::InMemorySys::default();
+  let sched = Sched::new(SchedMode::Immediate);
+  let loader = ScriptedLoader::new(sched);
+  let with = match attr {
+    Some(a) => format!(", {{ with: {{ type: \"{a}\" }} }}"),
+    None => String::new(),
+  };
+  let static_target = if referrer == "main.ts" { "./a.ts" } else { "./a.ts" };
+  let src = format!(
+    "{}const x = \"p\", y = \"q\";\nconst m = await import(`{template}`{with});\nexport default m;\n",
+    if second_import { format!("import * as st from \"{static_target}\";\n") } else { String::new() }
+  );
+  for f in T_FILES {
+    let text = if *f == referrer { src.clone() } else if f.ends_with(".json") { "{\"k\": 1}".to_string() } else { "export default 1;\n".to_string() };
+    let path = std::path::PathBuf::from(format!("/w/{f}"));
+    sys.fs_create_dir_all(path.parent().unwrap()).unwrap();
+    sys.fs_write(&path, &text).unwrap();
+    loader.add_text(&format!("file:///w/{f}"), &text);
+  }
+  let root = url(&format!("file:///w/{referrer}"));
+  let mut g = ModuleGraph::new(kind);
+  if build_graph(
+    &mut g,
+    vec![root.clone()],
+    &loader,
+    BuildCfg {
+      skip_dynamic_deps: skip_dynamic,
+      file_system: Some(&sys),
+      ..Default::default()
+    },
+    ch,
+  )
+  .is_err()
+  {
+    run.violate("build-did-not-finish", "deadlock", json!({"template": template}));
+    return run;
+  }
+  run.evals = 1;
+  let want = template_reference(template, attr, referrer);
+  let case = |extra: Value| json!({"importing_module": referrer, "source": src, "files": T_FILES, "graph_kind": format!("{kind:?}"), "skip_dynamic_deps": skip_dynamic, "expected_specifiers": want, "detail": extra});
+  let Some(deno_graph::Module::Js(js)) = g.get(&root) else {
+    run.violate("template-importer-not-loaded", "the importing module is not a JS module of the graph", case(json!({})));
+    return run;
+  };
+  // (1) recorded dynamic dependencies = what the template stands for
+  let got: BTreeSet<String> = js.dependencies.iter().filter(|(_, d)| d.is_dynamic || d.imports.iter().any(|i| i.is_dynamic)).map(|(k, _)| k.clone()).collect();
+  if got != want {
+    let extra: Vec<_> = got.difference(&want).cloned().collect();
+    let lacking: Vec<_> = want.difference(&got).cloned().collect();
+    run.violate(
+      format!("template-import-dependencies-differ:{}", if extra.is_empty() { "lacks" } else if lacking.is_empty() { "extra" } else { "both" }),
+      format!("import(`{template}`){with} in {referrer}: recorded {got:?}, the template stands for {want:?}"),
+      case(json!({})),
+    );
+  }
+  for (k, d) in &js.dependencies {
+    if want.contains(k) {
+      let attr_ok = d.maybe_attribute_type.as_deref() == attr || (second_import && k == static_target);
+      if !attr_ok {
+        run.violate("template-import-attribute-differs", format!("{k}: attribute {:?}, the import has {attr:?}", d.maybe_attribute_type), case(json!({})));
+      }
+    }
+  }
+  // (2) closure: the matched files are loaded exactly when dynamic imports are followed
+  let mut expect_loaded: BTreeSet<String> = BTreeSet::new();
+  expect_loaded.insert(root.to_string());
+  // (the importing module is TypeScript: its imports are followed under every graph kind)
+  if !skip_dynamic {
+    for r in &want {
+      expect_loaded.insert(root.join(r).unwrap().to_string());
+    }
+  }
+  if second_import {
+    expect_loaded.insert(root.join(static_target).unwrap().to_string());
+  }
+  let have: BTreeSet<String> = g.specifiers().map(|(s, _)| s.to_string()).collect();
+  if have != expect_loaded {
+    let extra: Vec<_> = have.difference(&expect_loaded).cloned().collect();
+    let lacking: Vec<_> = expect_loaded.difference(&have).cloned().collect();
+    run.violate(
+      format!("graph-is-not-the-closure@{kind:?}:{}", if extra.is_empty() { "reachable-absent" } else if lacking.is_empty() { "unreachable-present" } else { "both" }),
+      format!("present but not reachable: {extra:?}; reachable but absent: {lacking:?}"),
+      case(json!({})),
+    );
+  }
+  run.state_key = hash_of(&(template, attr, referrer, format!("{kind:?}"), skip_dynamic, second_import));
+  run.nontrivial = !want.is_empty();
+  run.outcome_key = hash_of(&(format!("{got:?}"), have.len()));
+  if ch.describe() {
+    run.sample = Some(case(json!({"recorded": got})));
+  }
+  run
+}
+
 pub fn prop(tier: Tier) -> Prop {
   let parts = match tier {
     Tier::Quick => vec![
@@ -725,6 +965,13 @@ pub fn prop(tier: Tier) -> Prop {
       },
     ],
   };
+  let mut parts = parts;
+  parts.push(Part {
+    name: "template-imports",
+    body: Box::new(body_templates),
+    modes: vec![Mode::Full],
+    what: "template-literal dynamic imports expanded against a directory tree (19 files incl. hidden / node_modules / vendor directories, JSON, declaration and text files): 18 templates x 2 importing modules x 3 graph kinds x skip_dynamic_deps x an additional static import; recorded dynamic dependencies and the loaded set vs a reference of what the template stands for",
+  });
   Prop {
     id: "C01",
     rule: "state = world (entry kinds x attribute per target x import edges with form and target x local/remote x x-typescript-types header x 1..2 roots); per world 3 graph kinds x 10 option sets (all 8 combinations of skip_dynamic_deps x is_dynamic x unstable text/bytes imports under default resolution; resolver (bare-specifier map, resolve_types table, default JSX import source and types source) + npm resolver + jsr passthrough + configured type import; default with the reachable redirects already in the graph through fill_from_lockfile) are built. Oracle: (1) each JS/TS module's recorded dependencies (specifier text -> code target, type target, is_dynamic, attribute, import kinds) equal what reference rules derive from the renderer's record of the statements it wrote; (2) slots + redirect sources = least closure of the roots under the follow rules of the kind/options, computed over the reference dependencies; (3) one load per specifier (asset->module upgrade excepted), every loader redirect recorded; (4) entry kind where the world determines it. Non-trivial = world with an edge of a non-default form.".into(),
